@@ -30,6 +30,7 @@ def trees():
         R("VMany", {}, "a", items=(H(1, "multi"), R("VReq", {}, "xml", child=H(2, "gen")), R("VLeaf", {"v": 3}, "c"))),
         H(1, "a", kid=H(2, None, kid=H(3, "b"))),
         R("VMixed", {"v": 1}, None, first=H(1), items=(H(2, "a"), H(3, "a")), one=None),
+        R("VPascal", {"Name": "n", "Zed": 1}, "a", Kid=H(1, None, kid=R("VPascal", {"Name": "m"}, "xml"))),
     ]
 
 
@@ -60,7 +61,7 @@ def _child_field_names(cls_name: str) -> list[str] | None:
     cls = CLASSES.get(cls_name)
     if cls is None:
         return None
-    hints = {"VMany": ["items"], "VReq": ["child"], "VHook": ["kid"], "VMixed": ["first", "items", "one"], "VLeaf": []}
+    hints = {"VMany": ["items"], "VReq": ["child"], "VHook": ["kid"], "VMixed": ["first", "items", "one"], "VLeaf": [], "VPascal": ["Kid"]}
     _ = fields, ASTNode
     return hints.get(cls_name)
 
